@@ -41,6 +41,6 @@ def run(chk, b, tier):
                  "right kind, in the model's witness set; description resolved by `git rev-parse --verify` must give "
                  "exactly that oid; --names=hash shows no description, --names=none cites nothing. 30% of runs behind the "
                  "permuting shim. Non-trivial: run cites >=1 object.",
-                 want_table=True, names_modes=("full", "full", "full", "hash", "none"), permute=0.3, sigfn=sigfn, cut_refs=0.08, tail_sweep=8)
+                 want_table=True, names_modes=("full", "full", "full", "hash", "none"), permute=0.3, sigfn=sigfn, cut_refs=0.08, tail_sweep=12)
     chk.assumptions += ["git rev-parse is the judge of whether a description resolves",
                         "reference model's witness sets (all objects attaining the maximum) trusted"]
